@@ -141,6 +141,49 @@ Proof.
   - eexists. eexists. split; [vm_compute; reflexivity|]. repeat split.
 Qed.
 
+(* lattices: [element_of c univs c']: c' is a copy of the lattice cell c (same
+   material, density, importance, universe, provenance) that has no fill when
+   its array entry names the lattice's own universe and is filled with the
+   entry otherwise *)
+Example C09_element_of_unfold : forall c univs c',
+  element_of c univs c' <->
+  c_mat c' = c_mat c /\ c_dens c' = c_dens c /\ c_imp c' = c_imp c /\ c_univ c' = c_univ c /\
+  c_origin c' = c_origin c /\
+  (c_fill c' = None /\ In (c_univ c) univs \/
+   exists u, c_fill c' = Some u /\ u <> c_univ c /\ u <> 0%Z /\ In u univs).
+Proof. intros. reflexivity. Qed.
+
+(* develop_lattice on a dictionary of parsed cells (distinct keys): the lattice
+   cell is replaced by one element per non-zero array entry, in order; an
+   element of the lattice's own universe is a plain cell of the lattice cell's
+   material (a leaf for pot_fill), the other cells are untouched, and the
+   result satisfies the hypotheses of C09_provenance_head_is_leaf again *)
+Theorem C09_lattice_elements : forall (d : dict cell) (next key : Z) (univs : list Z) (c : cell) (d' : dict cell) (n : Z),
+  NoDup (map fst d) -> pristine d -> fresh (d, next) -> lookup key d = Some c ->
+  develop_lattice (d, next) key univs = Ok (d', n) ->
+  pristine d' /\ fresh (d', n) /\ lookup key d' = None /\
+  (forall k, k <> key -> forall x, lookup k d = Some x -> lookup k d' = Some x) /\
+  (forall k c', lookup k d' = Some c' ->
+     lookup k d = Some c' \/ (lookup k d = None /\ (next < k <= n)%Z /\ element_of c univs c')) /\
+  (exists l, d' = remove_key key (d ++ l)%list /\
+     map (fun kc => c_fill (snd kc)) l =
+       map (fun u => if (u =? c_univ c)%Z then None else Some u) (filter (fun u => negb (u =? 0)%Z) univs)).
+Proof. exact develop_lattice_spec. Qed.
+Print Assumptions C09_lattice_elements.
+
+(* cell 1 (void) filled with universe 1 = the lattice cell 2 of material 3
+   whose array is [1; 5; 0; 1] (own universe twice, universe 5 once), universe
+   5 = {cell 3 of material 1}: three new level-0 cells, two of material 3 (the
+   lattice cell's) and one of material 1 *)
+Example C09_lattice_nontrivial :
+  let d0 := [(1, mkCell "0" None 1 0 (Some 1) []); (2, mkCell "3" (Some "-2.7") 1 1 None []);
+             (3, mkCell "1" (Some "-1.0") 1 5 None [])]%Z in
+  exists d1 n1 st' ks, develop_lattice (d0, 3%Z) 2%Z [1; 5; 0; 1]%Z = Ok (d1, n1) /\
+    treat_fill 5 d1 n1 = Ok (st', ks) /\ ks = [8; 9; 10]%Z /\
+    map (fun k => match lookup k (fst st') with Some c => (c_mat c, c_dens c) | None => ("?", None) end) ks =
+      [("3", Some "-2.7"); ("1", Some "-1.0"); ("3", Some "-2.7")].
+Proof. cbv zeta. do 4 eexists. split; [vm_compute; reflexivity|]. split; [vm_compute; reflexivity|]. split; reflexivity. Qed.
+
 (* ------------------------------------------------------------------------ *)
 (* GEOMCOMP                                                                  *)
 (* ------------------------------------------------------------------------ *)
